@@ -361,6 +361,14 @@ def run_impl(env, c, via_fnode=False):
                 r = c.f.substitute(c.subs, interpretations=interps)
             finally:
                 pysmt.environment.pop_env()
+        elif c.route == "shortcut":
+            import pysmt.environment
+            import pysmt.shortcuts
+            pysmt.environment.push_env(env)
+            try:
+                r = pysmt.shortcuts.substitute(c.f, c.subs, interpretations=interps)
+            finally:
+                pysmt.environment.pop_env()
         elif c.route == "env":
             r = env.substituter.substitute(c.f, c.subs, interpretations=interps)
         else:
@@ -685,7 +693,7 @@ def shape_of(c, res, mgres):
 
 
 def run(ctx):
-    warnings.filterwarnings("ignore", message="Warning: Division by 0")
+    warnings.filterwarnings("ignore", message=".*Division by 0.*")
     quick = ctx.tier == "quick"
     n_k = 900 if quick else 12000
     n_sa = 350 if quick else 5000
@@ -746,6 +754,62 @@ def run(ctx):
         subs = g.symbol_map(f)
         for ms in (False, True):
             cases.append((Case(f, dict(subs), {}, ms, env_ms, "symbols"), "sa"))
+    # directed: substitution reached THROUGH the environment (FNode.substitute / shortcuts.substitute /
+    # env.substituter with the environment pushed as the current one), on maps on which the two
+    # strategies differ; the strategy must be the one the environment class declares
+    # (Environment: most-general, MSEnvironment subclass with SubstituterClass = MSSubstituter: most-specific)
+    for i in range(70 if quick else 900):
+        env_ms = rng.random() < 0.6
+        g = gens[env_ms]
+        m = g.mgr
+        if rng.random() < 0.3:
+            a_, b_, c_, d_ = rng.sample(g.uni.syms[BOOL], 3) + [g.fg_small.gen(BOOL, 1)]
+            conn = rng.choice([m.And, m.Or, m.Iff, m.Implies])
+            f = conn(a_, b_)
+            subs = {a_: c_, conn(c_, b_): d_, f: c_}
+            if rng.random() < 0.5:
+                f = m.Or(m.Not(f), g.fg_small.gen(BOOL, 1))
+            kinds = "through-environment+ms-chain"
+        else:
+            f = g.formula()
+            subs, kk = g.term_map(f)
+            for _ in range(4):
+                if "ms-chain" in kk or "nested-keys" in kk:
+                    break
+                subs, kk = g.term_map(f)
+            kinds = "through-environment+" + "+".join(sorted(set(kk)))
+        cases.append((Case(f, dict(subs), {}, env_ms, env_ms, kinds,
+                           route=rng.choice(["fnode", "shortcut", "env"])), "k"))
+    # directed: FAILING-then-succeeding call histories on the environment's substituter: a call that raises
+    # in the middle of the walk (an ill-typed replacement), then a call on a formula that shares a
+    # sub-term with the failed one under ANOTHER map — the second call must not see results of the first
+    for i in range(40 if quick else 500):
+        env_ms = rng.random() < 0.3
+        g = gens[env_ms]
+        m = g.mgr
+        bs = rng.sample(g.uni.syms[BOOL], 3)
+        pk, other = bs[0], bs[1]
+        shared = rng.choice([m.Or, m.And, m.Iff])(pk, g.fg_small.gen(BOOL, 1))
+        if rng.random() < 0.4:
+            shared = m.Not(shared)
+        xi = rng.choice(g.uni.syms[INT])
+        bad_atom = m.Equals(m.Plus(xi, g.fg_small.gen(INT, 1)), g.fg_small.gen(INT, 1))
+        args1 = [shared, bad_atom] if rng.random() < 0.5 else [bad_atom, shared]
+        if rng.random() < 0.3:
+            args1.insert(rng.randrange(3), g.fg_small.gen(BOOL, 1))
+        f1 = rng.choice([m.And, m.Or])(args1)
+        subs1 = {pk: other, xi: rng.choice([g.fg_small.gen(BOOL, 1), g.fg_small.gen(REAL, 1)])}   # ill-typed value
+        rest2 = m.Not(bs[2]) if rng.random() < 0.5 else g.fg_small.gen(BOOL, 2)
+        f2 = rng.choice([m.And, m.Or, m.Implies])(shared, rest2) if rng.random() < 0.7 else m.Not(m.And(rest2, shared))
+        v2 = g.value_for(BOOL)
+        if v2 is other:
+            v2 = m.Not(other)
+        subs2 = {pk: v2}
+        route = rng.choice(["env", "fnode", "shortcut"])
+        for (ff, ss) in [(f1, subs1), (f2, subs2)]:
+            cs = Case(ff, dict(ss), {}, env_ms, env_ms, "call-sequence+after-failure", route=route)
+            cs.seq = ("fail", i)
+            cases.append((cs, "k"))
     # directed: call SEQUENCES on the environment's long-lived substituter: the same (or an overlapping)
     # formula with interpretation I1 of f, then I2 (another body), then I1 again — each call must give
     # the instantiation of its own interpretation
@@ -839,6 +903,15 @@ def run(ctx):
             formals.append(rng.choice(c))
         if not ok:
             continue
+        dup = False
+        if rng.random() < 0.25:
+            # a repeated formal parameter (`dict(zip(...))`: first position, last actual)
+            idxs = [(a_, b_) for a_ in range(len(formals)) for b_ in range(a_ + 1, len(formals))
+                    if ft.param_types[a_] == ft.param_types[b_]]
+            if idxs:
+                a_, b_ = rng.choice(idxs)
+                formals[b_] = formals[a_]
+                dup = True
 
         def over(ty, syms):
             """a small term of type ty that mentions the given symbols when their type allows"""
@@ -861,7 +934,8 @@ def run(ctx):
         atom = app if rt.is_bool_type() else m.Equals(app, g.fg_small.gen(rt, 1))
         f = m.And(atom, g.fg_small.gen(BOOL, 2)) if rng.random() < 0.6 else m.Not(atom)
         for ms in (False, True):
-            cases.append((Case(f, {}, {fs: (formals, body)}, ms, env_ms, "interp+formals-in-actuals"), "k"))
+            cases.append((Case(f, {}, {fs: (formals, body)}, ms, env_ms,
+                               "interp+formals-in-actuals" + ("+repeated-formal" if dup else "")), "k"))
     # directed: identity pairs on compound keys with other keys inside them
     for i in range(120 if quick else 1500):
         env_ms = rng.random() < 0.25
@@ -919,9 +993,10 @@ def run(ctx):
                                    semantic.readable(b, 120)) for k, (fm, b) in c.interps.items()],
               "request": line,
               "impl": semantic.readable(out[1]) if out[0] == "ok" else out[1] + " :: " + repr(out[2])[:200]}
+        if c.route is not None:
+            rd["route"] = c.route
         if c.seq is not None:
             pref = seq_prefix.setdefault((c.env_ms, c.seq), [])
-            rd["route"] = c.route
             rd["earlier_calls_on_the_same_environment"] = list(pref)
             pref.append([c.route, line])
         rec["rd"] = rd
